@@ -222,16 +222,25 @@ def render_elem(e, ch, scope_stack, toks):
     empty = (not e["kids"]) and ch.pick(2, "empty") == 0
     parts.append(part("lit", endws + ("/>" if empty else ">")))
     toks.append(tok("stag", parts, px=px, ln=e["ln"], empty=empty, attrs=attrs))
+    if not e["kids"] and not empty:
+        maybe_empty_cdata(ch, toks)        # <a><![CDATA[]]></a> is an element without children
     render_kids(e["kids"], ch, scope_stack, toks)
     if not empty:
         toks.append(tok("etag", [part("lit", "</"), part("ename", qname_s(px, e["ln"])), part("lit", ["", " ", "\n"][ch.pick(3, "endws")] + ">")], px=px, ln=e["ln"]))
     scope_stack.pop()
 
 
+def maybe_empty_cdata(ch, toks):
+    """an empty CDATA section denotes no character data at all"""
+    if ch.pick(10, "emptycdata") == 9:
+        toks.append(tok("cdata", [part("lit", "<![CDATA["), part("cdata", []), part("lit", "]]>")], v=[]))
+
+
 def render_text(val, ch, toks):
     """one text node: runs of character data and CDATA sections"""
     i = 0
     n = len(val)
+    maybe_empty_cdata(ch, toks)
     while i < n:
         # length of this run
         j = n if ch.pick(2, "split") == 0 else i + 1 + ch.pick(max(1, n - i), "splitat") % (n - i)
@@ -268,6 +277,7 @@ def render_text(val, ch, toks):
                     pieces[0] = piece("eol", e="crlf")
             toks.append(tok("text", [part("text", spell(pieces))], pieces=pieces))
         i = j
+        maybe_empty_cdata(ch, toks)
 
 
 def has_cdata_end(s):
